@@ -129,6 +129,10 @@ class Session:
         rho = [[sum(m[i][k] * m[j][k].conjugate() for k in range(d)) for j in range(d)] for i in range(d)]
         tr = sum(rho[i][i].real for i in range(d))
         self.rho = [[z / tr for z in row] for row in rho]
+        # a third of the sessions live where the hidden units are saturated (|hidden bias| > 35): sampling
+        # stays random (the visible conditionals are moderate) while every guard an implementation may put
+        # around a sigmoid or an exponential is active
+        self.saturated = random.Random("sat-" + self.sid).random() < 0.34
 
     def seed_value(self, k):
         """abstract seed -> concrete seed (injective)"""
@@ -141,7 +145,7 @@ class Session:
         return [[r.randint(0, 1) for _ in range(self.nv)] for _ in range(rows)]
 
 
-def make_state(typ, nv, nh, na):
+def make_state(typ, nv, nh, na, saturated=False):
     if typ == "positive":
         st = PositiveWaveFunction(nv, nh, gpu=False)
     elif typ == "complex":
@@ -153,8 +157,10 @@ def make_state(typ, nv, nh, na):
     # read-only operation that resets or rescales any of them is visible in the parameter tokens
     with torch.no_grad():
         for net in st.networks:
-            for p in getattr(st, net).parameters():
+            for name, p in getattr(st, net).named_parameters():
                 p.add_(torch.randn_like(p) * 0.5)
+                if saturated and name == "hidden_bias":
+                    p.add_(torch.sign(p) * (36.0 + 20.0 * torch.rand_like(p)))
     return st
 
 
@@ -261,7 +267,7 @@ def execute(ctx, op, seed_of=None):
         qucumber.set_random_seed((seed_of or sess.seed_value)(op["k"]), cpu=True, gpu=False, quiet=True)
         return None
     if o == "Construct":
-        ctx.state = make_state(sess.typ, sess.nv, sess.nh, sess.na)
+        ctx.state = make_state(sess.typ, sess.nv, sess.nh, sess.na, sess.saturated)
         return None
     if o == "Reinit":
         s.reinitialize_parameters()
@@ -310,7 +316,30 @@ def execute(ctx, op, seed_of=None):
         data = torch.tensor(sess.data, dtype=torch.double) if r.random() < 0.5 else np.array(sess.data, dtype=float)
         if sess.typ != "positive":
             kw["input_bases"] = np.array(sess.bases)
-        return s.fit(data, **kw)
+        recorded = None
+        if op["e"] >= 1 and not s.stop_training and r.random() < 0.5:
+            # training watched by an evaluator and stopped by its verdict: when it stops is part of the history
+            from qucumber.callbacks import MetricEvaluator, ObservableEvaluator, EarlyStopping
+            space = s.generate_hilbert_space()
+            dt = torch.tensor(sess.data, dtype=torch.double)
+            if r.random() < 0.6:
+                mkw = dict(samples=dt, space=space)
+                if sess.typ != "positive":
+                    mkw["sample_bases"] = np.array(sess.bases)
+                ev = MetricEvaluator(1, {"NLL": ts.NLL}, **mkw)
+                es = EarlyStopping(1, 1e6, 1, ev, "NLL", criterion=r.choice(["relative", "absolute"]))
+            else:
+                ev = ObservableEvaluator(1, [SigmaZ()], num_samples=20, num_chains=5, burn_in=2, steps=1)
+                es = EarlyStopping(1, 1e6, 1, ev, "SigmaZ", criterion="variance")
+            kw["callbacks"] = [ev, es]
+            kw["epochs"] = op["e"] + 1          # >= 2: the stopper may act from its second evaluation on
+            recorded = (ev, es)
+        s.fit(data, **kw)
+        if recorded is None:
+            return None
+        ev, es = recorded
+        s.stop_training = False                 # (as a user does before training on; the abstract flag is SetStop's)
+        return [[int(e) for e in ev.epochs], -1 if es.last_epoch is None else int(es.last_epoch), len(ev)]
     raise common.MachineryError("unknown operation %r" % (op,))
 
 
